@@ -98,6 +98,39 @@ func init() {
 			return Tuple{plan.Payload, nilError()}
 		}
 	}
+	// (*rsa.PrivateKey).Decrypt(rand, ct, opts): OAEP when opts is *rsa.OAEPOptions (the hash must be linked into the
+	// binary, otherwise crypto.Hash.New panics), PKCS#1 v1.5 when opts is nil or *rsa.PKCS1v15DecryptOptions
+	models["(*crypto/rsa.PrivateKey).Decrypt"] = func(in *Interp, fn *ssa.Function, a []Value) Value {
+		opts, _ := a[3].(*Iface)
+		if opts == nil || opts.T == nil {
+			return keyTransport("pkcs1v15")(in, fn, []Value{a[1], a[0], a[2]})
+		}
+		ts := types.TypeString(opts.T, nil)
+		if ts == "*crypto/rsa.PKCS1v15DecryptOptions" {
+			return keyTransport("pkcs1v15")(in, fn, []Value{a[1], a[0], a[2]})
+		}
+		if ts != "*crypto/rsa.OAEPOptions" {
+			in.end("unmodelled", "rsa.PrivateKey.Decrypt with options %s at %s", ts, in.where())
+		}
+		op, _ := opts.V.(*Ptr)
+		if op == nil {
+			in.goPanic("nil *rsa.OAEPOptions")
+		}
+		ov := in.load(op).(*StructV)
+		h, _ := ov.F[fieldIndex(derefType(opts.T), "Hash")].(*smt.Term)
+		if h == nil || !h.Const {
+			in.end("unmodelled", "rsa.OAEPOptions with a symbolic hash at %s", in.where())
+		}
+		// crypto.Hash values whose implementation this binary links (crypto/md5, sha1, sha256, sha512 via the repo and x509)
+		names := map[uint64]string{2: "md5", 3: "sha1", 4: "sha224", 5: "sha256", 6: "sha384", 7: "sha512"}
+		name, ok := names[h.U]
+		in.X.noteAssumption("crypto.Hash.New panics for a hash function whose package is not linked into the binary (linked here: MD5, SHA-1, SHA-224/256, SHA-384/512)")
+		if !ok {
+			in.goPanic("crypto: requested hash function #%d is unavailable", h.U)
+		}
+		hv := in.ghostIface("hash", map[string]interface{}{"name": name})
+		return keyTransport("oaep")(in, fn, []Value{hv, a[1], a[0], a[2], &SliceV{}})
+	}
 	models["crypto/rsa.DecryptOAEP"] = keyTransport("oaep")
 	models["crypto/rsa.DecryptPKCS1v15"] = keyTransport("pkcs1v15")
 
